@@ -859,8 +859,8 @@ static bool checkKriging(const FitCase& c, Model& m, double hmax, const std::str
   {
     int t = m.getCovaType(ic).getValue();
     if (t == 0) for (int i = 0; i < nvar; i++) nug += m.getSill(ic, i, i);
-    if (t == 3 || t == 4 || t == 5 || t == 7 || t == 8 || t == 9 || t == 10 || t == 25)
-      smooth = true;
+    double par = m.getCova(ic)->hasParam() ? m.getCova(ic)->getParam() : 0.;
+    if (t == 3 || t == 5 || t == 9 || ((t == 7 || t == 10) && par > 1.5)) smooth = true;
   }
   // lattice points in [0,hmax]^ndim, one per cell of a 3 x 3 (x 2) lattice, jittered in the central 60 %
   int nx = 3, nz = ndim == 3 ? 2 : 1, n = nx * nx * nz;
@@ -1029,7 +1029,9 @@ static bool checkConstraints(const FitCase& c, const Model& m, const std::vector
     {
       // sill items with the Goulard option switched off by the caller are a recorded root cause of their own
       std::string variant = (k.elem == 4 && !c.opt.goulard) ? ":goulard-off" : (k.kind == -1 ? ":lower" : k.kind == 1 ? ":upper" : ":equal");
-      ctx.fail(site + ":constraint:" + what + variant,
+      // bounds lost when a structure is discarded after a non-converged pass are a recorded root cause of their own
+      bool reduced = m.getCovaNumber() < (int)c.types.size();
+      ctx.fail(site + (reduced ? ":constraint-after-reduction:" : ":constraint:") + what + variant,
                fmt("structure %d (requested rank %d, %s) %s[%d,%d] = %.10g violates %s %.10g", fi, k.icov, infoOf(c.types[(size_t)k.icov]).name, what, k.iv1, k.iv2, got, k.kind == -1 ? ">=" : k.kind == 1 ? "<=" : "==", k.value));
       return false;
     }
